@@ -48,11 +48,13 @@ def enc(v):
     if isinstance(v, (int, np.integer)):
         return {"n": rat(int(v))}
     if isinstance(v, (float, np.floating)):
+        ty = type(v).__name__ if isinstance(v, np.floating) else None
         v = float(v)
-        if math.isnan(v):
-            return {"nf": "nan"}
-        if math.isinf(v):
-            return {"nf": "inf" if v > 0 else "-inf"}
+        if math.isnan(v) or math.isinf(v):
+            w = {"nf": "nan" if math.isnan(v) else ("inf" if v > 0 else "-inf")}
+            if ty:
+                w["ty"] = ty  # harness-only tag: the NumPy type that carried the non-finite value
+            return w
         return {"n": rat(v)}
     if isinstance(v, tuple):
         return {"l": [enc(x) for x in v], "t": 1}
@@ -75,7 +77,8 @@ def dec(w):
             return q.numerator / q.denominator
         return int(q) if w.get("i") else float(q)
     if "nf" in w:
-        return {"nan": float("nan"), "inf": float("inf"), "-inf": float("-inf")}[w["nf"]]
+        x = {"nan": float("nan"), "inf": float("inf"), "-inf": float("-inf")}[w["nf"]]
+        return getattr(np, w["ty"])(x) if w.get("ty") else x
     if "l" in w:
         xs = [dec(x) for x in w["l"]]
         return tuple(xs) if w.get("t") else xs
@@ -94,6 +97,21 @@ def enc_typed(v):
     elif isinstance(v, dict):
         w["d"] = [[str(k), enc_typed(x)] for k, x in v.items()]
     return w
+
+
+def _plain_num(v):
+    """NumPy scalars / bools -> Python numbers of the same value (for encoding only)"""
+    if isinstance(v, (bool, np.bool_)):
+        return int(v)
+    if isinstance(v, np.generic):
+        return _plain_num(v.item())
+    if isinstance(v, tuple):
+        return tuple(_plain_num(x) for x in v)
+    if isinstance(v, list):
+        return [_plain_num(x) for x in v]
+    if isinstance(v, dict):
+        return {k: _plain_num(x) for k, x in v.items()}
+    return v
 
 
 def text_to_fraction(text):
@@ -138,7 +156,17 @@ META_POOL = ["a", "b", "num", "txt", "_hidden", "loss", "k,1", "\u00fc", 'q"k']
 TEXTS = ["abc", "a,b", "x y", 'q"r', "1.0", "l1\nl2", "cr\rx", "l1\r\nl2", "\u00e9\u2713 \u4e2d", '","', " lead", "trail ", "'s"]
 
 
+# extreme but finite magnitudes: near the largest double (sums / differences of two overflow), the
+# smallest subnormal and normal, signed zeros, the largest integers a double holds exactly
+EXTREMES = [1.5e308, -1.5e308, 1.2e308, 1e308, -1e308, 1.7976931348623157e308, -1.7976931348623157e308,
+            5e-324, -5e-324, 2.2250738585072014e-308, 0.0, -0.0, 2**53 - 1, -(2**53 - 1), 10**15, 1e-300, 1e300]
+OVERFLOW_TUPLES = [(1.5e308, 1.2e308), (-1.5e308, -1.5e308), (1.5e308, -1.5e308, 1.5e308), (1e308, 1e308, 1e308),
+                   (1.7976931348623157e308, 1.7976931348623157e308), (-1e308, -1e308, 5e-324), (1.5e308, 1.5e308, -1.5e308)]
+
+
 def gen_number(rng):
+    if rng.random() < 0.08:
+        return rng.choice(EXTREMES)
     k = rng.random()
     if k < 0.3:
         return rng.randint(-5, 5)
@@ -165,15 +193,22 @@ def gen_objective(rng, m, p_fail, kinds):
         kind = rng.choice(kinds)
         if kind == "str":
             return rng.choice(LABELS), "str"
+        ty = rng.choice([float, float, np.float64, np.float32, np.float16])  # the type that carries the value
         if kind == "nonfin":
-            return rng.choice([float("nan"), float("inf"), float("-inf")]), "nonfin"
+            return ty(rng.choice([float("nan"), float("inf"), float("-inf")])), "nonfin"
         if m > 1:
             xs = [gen_number(rng) for _ in range(m)]
-            xs[rng.randrange(m)] = rng.choice([float("nan"), float("inf"), float("-inf")])
+            xs[rng.randrange(m)] = ty(rng.choice([float("nan"), float("inf"), float("-inf")]))
             return (tuple(xs) if rng.random() < 0.7 else xs), "nonfin-in-tuple"
         return float("nan"), "nonfin"
     if m == 1:
         return gen_number(rng), "success"
+    if rng.random() < 0.06:
+        # finite objectives whose sum (or partial sums) overflow a double: still a success
+        xs = list(rng.choice([t for t in OVERFLOW_TUPLES if len(t) >= m] or OVERFLOW_TUPLES))[:m]
+        while len(xs) < m:
+            xs.append(rng.choice(EXTREMES[:7]))
+        return (tuple(xs) if rng.random() < 0.7 else xs), "success"
     xs = [gen_number(rng) for _ in range(m)]
     return (tuple(xs) if rng.random() < 0.7 else xs), "success"
 
@@ -281,10 +316,11 @@ def expected_objective(raw):
 def is_failure_obj(o):
     if isinstance(o, str):
         return True
-    if isinstance(o, (int, float)):
+    num = (int, float, np.integer, np.floating)
+    if isinstance(o, num):
         return not math.isfinite(o)
     if isinstance(o, (tuple, list)):
-        return any(isinstance(x, (int, float)) and not math.isfinite(x) for x in o)
+        return any(isinstance(x, num) and not math.isfinite(x) for x in o)
     return False
 
 
@@ -546,7 +582,7 @@ def _norm(w):
     """wire value with the harness-only type tags removed"""
     if w is None:
         return None
-    w = {k: v for k, v in w.items() if k not in ("i", "t", "f")}
+    w = {k: v for k, v in w.items() if k not in ("i", "t", "f", "ty")}
     if "l" in w:
         w["l"] = [_norm(x) for x in w["l"]]
     if "d" in w:
@@ -1221,49 +1257,87 @@ def _case_strings(case):
         yield from case.get("hp_names", [])
 
 
+TEXT_CLASSES = ["lone-carriage-return", "newline", "comma-or-quote", "non-ascii"]
+
+
+def _has_class(t, cls):
+    import re
+
+    if cls == "lone-carriage-return":
+        return re.search(r"\r(?!\n)", t) is not None
+    if cls == "newline":
+        return "\n" in t  # LF or CRLF (a CR that is not followed by LF is the other class)
+    if cls == "comma-or-quote":
+        return "," in t or '"' in t
+    if cls == "non-ascii":
+        return any(ord(ch) > 127 for ch in t)
+    return False
+
+
+def _strip_class(t, cls):
+    """the text without the characters of one class ("all": plain ASCII letters / digits / _ only)"""
+    import re
+
+    keepF = t.startswith("F")
+    if cls == "lone-carriage-return":
+        u = re.sub(r"\r(?!\n)", "", t)
+    elif cls == "newline":
+        u = t.replace("\r\n", "").replace("\n", "")
+    elif cls == "comma-or-quote":
+        u = t.replace(",", "").replace('"', "")
+    elif cls == "non-ascii":
+        u = "".join(ch for ch in t if ord(ch) <= 127)
+    else:
+        u = "".join(ch for ch in t if ch.isascii() and (ch.isalnum() or ch == "_"))
+    if keepF and not u.startswith("F"):
+        u = "F" + u
+    return u or "v"
+
+
 def _text_tags(case):
-    """input-class predicates about the text of the values (only reported with a violation)"""
-    import re
-
+    """input-class predicates about the text of the values.  Only reported with a violation, and —
+    because the shrinker first removes every class of characters the failure does not need
+    (`shrink`) — only the classes without which the failure disappears remain in a shrunk case."""
     strs = list(_case_strings(case))
-    tags = ""
-    if any(re.search(r"\r(?!\n)", t) for t in strs):
-        tags += ",lone-carriage-return-in-value"
-    elif any(ch in t for t in strs for ch in '\n\r'):
-        tags += ",newline-in-value"
-    elif any(ch in t for t in strs for ch in ',"'):
-        tags += ",comma-or-quote-in-value"
-    elif any(ord(ch) > 127 for t in strs for ch in t):
-        tags += ",non-ascii-value"
-    return tags
+    return "".join("," + cls + "-in-value" for cls in TEXT_CLASSES if any(_has_class(t, cls) for t in strs))
 
 
-def _sanitize_wire(w, level):
-    """replace text by plainer text: level 0 drops lone CR, 1 drops newlines, 2 everything special"""
-    import re
-
-    def fix(t):
-        if level >= 0:
-            t = re.sub(r"\r(?!\n)", "", t)
-        if level >= 1:
-            t = t.replace("\r", "").replace("\n", "")
-        if level >= 2:
-            t = "".join(ch for ch in t if ch.isascii() and (ch.isalnum() or ch == "_")) or "v"
-        return t
-
+def _sanitize_wire(w, cls):
+    """every string (values and dict keys) without the characters of class `cls`"""
     if not isinstance(w, dict):
         return w
     w = dict(w)
     if "s" in w:
-        keepF = w["s"].startswith("F")
-        w["s"] = fix(w["s"])
-        if keepF and not w["s"].startswith("F"):
-            w["s"] = "F" + w["s"]
+        w["s"] = _strip_class(w["s"], cls)
     if "l" in w:
-        w["l"] = [_sanitize_wire(x, level) for x in w["l"]]
+        w["l"] = [_sanitize_wire(x, cls) for x in w["l"]]
     if "d" in w:
-        w["d"] = [[fix(k) if level < 2 else k, _sanitize_wire(x, level)] for k, x in w["d"]]
+        seen, d = set(), []
+        for k, x in w["d"]:
+            k2 = _strip_class(k, cls)
+            while k2 in seen:
+                k2 += "_"
+            seen.add(k2)
+            d.append([k2, _sanitize_wire(x, cls)])
+        w["d"] = d
     return w
+
+
+def _sanitize_case(case, cls):
+    if case["level"] == "unit":
+        return dict(case, jobs=[dict(j, args=_sanitize_wire(j["args"], cls), meta0=_sanitize_wire(j["meta0"], cls),
+                                     out=_sanitize_wire(j["out"], cls)) for j in case["jobs"]])
+    cand = dict(case, outs=[_sanitize_wire(w, cls) for w in case["outs"]])
+    for key in ("choices", "hp_names"):
+        out = []
+        for t in case.get(key) or []:
+            u = _strip_class(t, cls)
+            while u in out:
+                u += "_"
+            out.append(u)
+        if key in case:
+            cand[key] = out
+    return cand
 
 
 def _flush_before_success(case, obs):
@@ -1415,18 +1489,16 @@ def shrink(case, still_fails):
     remaining output is replaced by the simplest one of its class when the failure persists"""
     cur = _shrink_delete(case, still_fails)
     m = cur["m"]
-    for level in (2, 1, 0):  # plainer text wherever the failure does not depend on it
-        if cur["level"] == "unit":
-            cand = dict(cur, jobs=[dict(j, args=_sanitize_wire(j["args"], level), meta0=_sanitize_wire(j["meta0"], level),
-                                        out=_sanitize_wire(j["out"], level)) for j in cur["jobs"]])
-        else:
-            cand = dict(cur, outs=[_sanitize_wire(w, level) for w in cur["outs"]])
-            if level == 2:
-                cand["choices"] = ["a", "b"]
-                cand["hp_names"] = []
-        if cand != cur and still_fails(cand):
-            cur = cand
-            break
+    # plainer text wherever the failure does not depend on it: everything at once, else class by class,
+    # so that a special-character tag survives only if the failure needs that class of characters
+    cand = _sanitize_case(cur, "all")
+    if cand != cur and still_fails(cand):
+        cur = cand
+    else:
+        for cls in TEXT_CLASSES:
+            cand = _sanitize_case(cur, cls)
+            if cand != cur and still_fails(cand):
+                cur = cand
     if cur["level"] == "unit":
         for i, j in enumerate(cur["jobs"]):
             c = _canonical_out(j["out"], m)
@@ -1637,7 +1709,9 @@ def run(ck):
                "grids through csv.writer and random character soup through csv.reader; malformed outputs go to the standardize_output "
                "stream; non-trivial = at least 2 finished jobs with both a failure and a success")
     ck.assumptions = [
-        "ints returned as scalar objectives are < 2^53 in magnitude (float(output) is then exact)",
+        "ints are < 2^53 in magnitude: float(output) is then exact; Python ints beyond the int64 range make np.isfinite / "
+        "np.negative raise in several places of the NumPy-based pipeline and ints beyond the float range cannot be converted at all "
+        "(OverflowError in standardize_output): outside the numeric range the code supports, not generated",
         "tuple/list objectives have >= 2 components and one arity per search (the property's quantifier)",
         "metadata given as a list of pairs, bool/bytes objectives, empty metadata keys are not generated",
         "np.argsort inside non_dominated_set returns a permutation (observed and passed to the model)",
@@ -1659,7 +1733,16 @@ def run(ck):
         obj, _k = gen_objective(rng, m, 0.3, ["str", "nonfin", "nonfin-in-tuple"])
         raw, _f = wrap_form(rng, obj)
         std_cases.append(raw)
-    std_reqs = [{"op": "std", "out": enc(x)} for x in std_cases]
+    # the numeric types a run-function realistically returns (value only: the model classifies by value)
+    for T in (float, np.float64, np.float32, np.float16):
+        for x in (1.5, float("nan"), float("inf")):
+            v = T(x)
+            std_cases += [v, (v, 1.0), {"objective": v}, {"objective": [2.0, v], "metadata": {"a": 1}}, {"output": v, "metadata": {}}]
+    for v in (3, True, np.int64(4), np.int32(-3)):
+        std_cases += [v, (v, 1.0), {"objective": v}]
+    for v in EXTREMES:
+        std_cases += [v, (v, 1.5e308), {"objective": v}, {"output": (v, v), "metadata": {}}]
+    std_reqs = [{"op": "std", "out": enc(_plain_num(x))} for x in std_cases]
     # corpus first
     for name, case in corpus_cases():
         ck.count("corpus")
@@ -1682,11 +1765,11 @@ def run(ck):
     with ck.driver() as d:
         reps = d.ask_all(std_reqs)
     for raw, rep in zip(std_cases, reps):
-        case = {"level": "std", "out": enc(raw)}
+        case = {"level": "std", "out": enc(_plain_num(raw))}
         ck.case(case, nontrivial=isinstance(raw, dict))
         try:
             out, md = HPOJob.standardize_output(copy.deepcopy(raw))
-            got = {"err": None, "objective": enc(out["objective"]), "meta": [[k, enc(v)] for k, v in md.items()]}
+            got = {"err": None, "objective": enc(_plain_num(out["objective"])), "meta": [[k, enc(_plain_num(v))] for k, v in md.items()]}
         except Exception as e:
             got = {"err": type(e).__name__}
         ck.count("std:" + (rep["err"] or "ok"))
